@@ -1515,6 +1515,17 @@ func (x *TX) bufTerm(obj ssa.Value, at ssa.Instruction) *Term {
 			}
 		}
 	}
+	// every other use of a view that may write into the buffer (append INTO a view, the view
+	// handed to a function that is not known to only read it, an alias kept in a variable or
+	// struct field and written through later, …) makes the contents unknown
+	var opaque []ssa.Instruction
+	var opaqueWhy []string
+	for _, vw := range views {
+		for _, u := range x.opaqueViewUses(vw.v, true, map[ssa.Value]bool{}) {
+			opaque = append(opaque, u.in)
+			opaqueWhy = append(opaqueWhy, u.why)
+		}
+	}
 	t := &Term{Op: "buf", S: sizeStr}
 	sort.SliceStable(ws, func(i, j int) bool { return ws[i].key < ws[j].key })
 	for _, w := range ws {
@@ -1550,6 +1561,15 @@ func (x *TX) bufTerm(obj ssa.Value, at ssa.Instruction) *Term {
 		}
 		t.F = append(t.F, rng)
 		t.A = append(t.A, val)
+	}
+	for i, in := range opaque {
+		switch {
+		case at == nil || x.fi.canReach(in, at) || in == at:
+			t.F = append(t.F, "?opaque")
+			t.A = append(t.A, unknown("buffer may be written by "+opaqueWhy[i]))
+		case x.fi.canReach(at, in):
+			late = true
+		}
 	}
 	if late {
 		t.F = append(t.F, "!late")
@@ -1631,6 +1651,209 @@ func partitionedBuf(t *Term, size int, sizeKnown bool) *Term {
 		return nil
 	}
 	return &Term{Op: "cat", A: segs}
+}
+
+type opaqueUse struct {
+	in  ssa.Instruction
+	why string
+}
+
+// readOnlyByteFuncs: external functions that only read the byte slices they are given.
+var readOnlyByteFuncs = map[string]bool{
+	"bytes.Equal": true, "bytes.Compare": true, "bytes.HasPrefix": true, "bytes.HasSuffix": true, "bytes.TrimLeft": true, "bytes.Contains": true,
+	"ethcrypto.Keccak256": true, "ethcrypto.Keccak256Hash": true, "ethcrypto.Ecrecover": true, "ethcommon.BytesToAddress": true, "ethcommon.BytesToHash": true, "ethcommon.Bytes2Hex": true,
+	"encoding/hex.EncodeToString": true, "(*math/big.Int).SetBytes": true, "bech32.ConvertAndEncode": true, "sdk.Bech32ifyAddressBytes": true, "sdk.MustBech32ifyAddressBytes": true,
+	"(encoding/binary.bigEndian).Uint16": true, "(encoding/binary.bigEndian).Uint32": true, "(encoding/binary.bigEndian).Uint64": true,
+	"(encoding/binary.littleEndian).Uint16": true, "(encoding/binary.littleEndian).Uint32": true, "(encoding/binary.littleEndian).Uint64": true,
+	"(prefix.Store).Get": true, "(prefix.Store).Has": true, "(prefix.Store).Set": true, "(prefix.Store).Delete": true, "(prefix.Store).Iterator": true,
+	"types.KeyPrefix": true, "fmt.Sprintf": true, "fmt.Errorf": true, "sdkerrors.Wrapf": true, "sdkerrors.Wrap": true,
+	"(sdk.AccAddress).String": true, "(sdk.AccAddress).Bytes": true,
+}
+
+// opaqueViewUses lists the uses of a slice value v aliasing a local byte buffer that may
+// write into it in a way bufTerm does not model. direct: v is one of the buffer's own
+// views (its recognised writers — copy into it, PutUintNN, FillBytes, v[i] = b — are
+// modelled and not reported); for an alias reached through a variable, a struct field or a
+// phi, every write is reported.
+func (x *TX) opaqueViewUses(v ssa.Value, direct bool, seen map[ssa.Value]bool) []opaqueUse {
+	if seen[v] {
+		return nil
+	}
+	seen[v] = true
+	var out []opaqueUse
+	refs := v.Referrers()
+	if refs == nil {
+		return nil
+	}
+	add := func(in ssa.Instruction, why string) { out = append(out, opaqueUse{in, why}) }
+	for _, r := range *refs {
+		switch r := r.(type) {
+		case *ssa.Slice:
+			if !direct {
+				out = append(out, x.opaqueViewUses(r, false, seen)...)
+			} // direct sub-views are views of their own
+		case *ssa.IndexAddr:
+			if direct {
+				continue
+			}
+			if irefs := r.Referrers(); irefs != nil {
+				for _, ir := range *irefs {
+					if st, ok := ir.(*ssa.Store); ok && st.Addr == ssa.Value(r) {
+						add(st, "a store through an alias of it")
+					}
+				}
+			}
+		case *ssa.Call, *ssa.Defer, *ssa.Go:
+			common := r.(ssa.CallInstruction).Common()
+			argIdx := -1
+			for i, a := range common.Args {
+				if a == v {
+					argIdx = i
+				}
+			}
+			if b, ok := common.Value.(*ssa.Builtin); ok {
+				switch b.Name() {
+				case "len", "cap", "print", "println":
+				case "copy":
+					if argIdx == 0 && !direct {
+						add(r, "copy into an alias of it")
+					}
+				case "append":
+					if argIdx == 0 && !(direct && x.appendCannotWriteInside(v)) {
+						add(r, "append into it (writes the backing array when capacity allows)")
+					}
+				default:
+					add(r, "builtin "+b.Name())
+				}
+				continue
+			}
+			if common.IsInvoke() {
+				continue // store / keeper / codec interfaces: take keys and values by value semantics
+			}
+			callee := common.StaticCallee()
+			if callee == nil {
+				add(r, "a dynamic call")
+				continue
+			}
+			name := funcName(callee)
+			if strings.Contains(name, "Endian).PutUint") || name == "(*math/big.Int).FillBytes" {
+				if !direct {
+					add(r, name+" into an alias of it")
+				}
+				continue
+			}
+			if readOnlyByteFuncs[name] {
+				continue
+			}
+			if x.p.inModuleCode(callee) || (callee.Pkg != nil && x.p.isModulePkgPath(callee.Pkg.Pkg.Path())) {
+				if argIdx >= 0 && argIdx < len(callee.Params) && callee.Blocks != nil {
+					if cx := x.p.tx(callee); len(cx.opaqueViewUses(callee.Params[argIdx], false, map[ssa.Value]bool{})) == 0 {
+						continue // the callee only reads it
+					}
+				}
+				add(r, "module function "+name)
+				continue
+			}
+			add(r, "external function "+name)
+		case *ssa.Store:
+			if r.Val != v {
+				continue
+			}
+			// kept in a local variable or a field of a local struct: follow what is read back
+			switch a := r.Addr.(type) {
+			case *ssa.Alloc:
+				out = append(out, x.aliasLoads(a, nil, seen)...)
+			case *ssa.FieldAddr:
+				if base, ok := a.X.(*ssa.Alloc); ok {
+					out = append(out, x.aliasLoads(base, a, seen)...)
+				} else {
+					add(r, "an alias stored outside the function's locals")
+				}
+			case *ssa.IndexAddr:
+				// element of a local array (varargs): read by the callee
+			case *ssa.Global:
+				// a package-level buffer: who may write it is decided per global
+				// (zeroBufGlobal, C18's global-alias rule)
+			default:
+				add(r, "an alias stored outside the function's locals")
+			}
+		case *ssa.Phi, *ssa.ChangeType:
+			out = append(out, x.opaqueViewUses(r.(ssa.Value), false, seen)...)
+		case *ssa.MakeClosure:
+			add(r, "a closure capturing it")
+		case *ssa.MakeInterface, *ssa.Convert, *ssa.Return, *ssa.DebugRef, *ssa.BinOp, *ssa.UnOp, *ssa.Lookup, *ssa.Range, *ssa.If, *ssa.MapUpdate, *ssa.Send:
+		default:
+			add(r, fmt.Sprintf("%T", r))
+		}
+	}
+	return out
+}
+
+// appendCannotWriteInside: v is a buffer (or a view of it reaching its end) whose capacity
+// equals its length: append(v, …) has no room, allocates, and leaves the buffer alone.
+func (x *TX) appendCannotWriteInside(v ssa.Value) bool {
+	for {
+		switch o := v.(type) {
+		case *ssa.MakeSlice:
+			if o.Cap == o.Len {
+				return true
+			}
+			l, okL := constInt(o.Len)
+			c, okC := constInt(o.Cap)
+			return okL && okC && l == c
+		case *ssa.Slice:
+			if o.Max != nil {
+				return false
+			}
+			if a, ok := o.X.(*ssa.Alloc); ok {
+				arr, isArr := a.Type().(*types.Pointer).Elem().Underlying().(*types.Array)
+				if !isArr {
+					return false
+				}
+				if o.High == nil {
+					return true // arr[lo:] has cap = len
+				}
+				h, ok := constInt(o.High)
+				return ok && int64(h) == arr.Len() // arr[lo:N]: make([]byte, N) with constant N
+			}
+			if o.High != nil {
+				return false
+			}
+			v = o.X
+		default:
+			return false
+		}
+	}
+}
+
+// aliasLoads: the slice was stored into local a (field f, or the variable itself): the
+// values read back from there are aliases.
+func (x *TX) aliasLoads(a *ssa.Alloc, f *ssa.FieldAddr, seen map[ssa.Value]bool) []opaqueUse {
+	var out []opaqueUse
+	refs := a.Referrers()
+	if refs == nil {
+		return nil
+	}
+	for _, r := range *refs {
+		switch r := r.(type) {
+		case *ssa.UnOp:
+			if f == nil && r.Op == token.MUL && isByteSlice(r.Type()) {
+				out = append(out, x.opaqueViewUses(r, false, seen)...)
+			}
+		case *ssa.FieldAddr:
+			if f == nil || r.Field != f.Field {
+				continue
+			}
+			if frefs := r.Referrers(); frefs != nil {
+				for _, fr := range *frefs {
+					if ld, ok := fr.(*ssa.UnOp); ok && ld.Op == token.MUL {
+						out = append(out, x.opaqueViewUses(ld, false, seen)...)
+					}
+				}
+			}
+		}
+	}
+	return out
 }
 
 func (x *TX) sliceTerm(v *ssa.Slice, at ssa.Instruction) *Term {
@@ -1804,7 +2027,10 @@ func (x *TX) callTerm(c *ssa.Call) *Term {
 		}
 	}
 	var plain *Term
-	if callee.Signature.Recv() != nil && len(args) > 0 && args[0].Op == "k" {
+	// `k.Name` is the spelling of the reference tree's keeper / message-server methods; a new
+	// method keeps its full name (a method added to msgServer must not pass for the promoted
+	// Keeper method of the same name)
+	if callee.Signature.Recv() != nil && len(args) > 0 && args[0].Op == "k" && knownFuncs[name] {
 		plain = &Term{Op: "call", S: "k." + callee.Name(), A: args[1:]}
 	} else {
 		pa := args
